@@ -136,9 +136,14 @@ def snap(objs):
     out = []
     for o in objs:
         if isinstance(o, np.ndarray):
-            out.append(("nd", o.dtype.str, o.shape, o.strides, o.tobytes()))
+            # the flags belong to the caller's object as much as its bytes do (a read-only array breaks the caller's
+            # next in-place write)
+            out.append(("nd", o.dtype.str, o.shape, o.strides, o.tobytes(), o.flags.writeable, o.flags.c_contiguous,
+                        o.flags.f_contiguous))
         elif isinstance(o, (pd.Series, pd.DataFrame)):
-            out.append(("pd", pickle.dumps(o.to_dict()), list(o.index), str(getattr(o, "dtypes", ""))))
+            fl = getattr(getattr(o, "values", None), "flags", None)
+            out.append(("pd", pickle.dumps(o.to_dict()), list(o.index), str(getattr(o, "dtypes", "")),
+                        getattr(fl, "writeable", None)))
         else:
             out.append(("py", pickle.dumps(o, protocol=4)))
     return out
